@@ -54,6 +54,11 @@ const c18SlowMs = 60
 
 type c18Case struct {
 	Txns []c18Txn `json:"txns"`
+	// Sync: the transport buffers nothing (net.Pipe semantics)
+	Sync bool `json:"sync,omitempty"`
+	// Frag > 0: the server's replies reach the client in segments of at most
+	// Frag octets (a network may deliver a reply octet by octet)
+	Frag int `json:"frag,omitempty"`
 }
 
 type c18Status struct {
@@ -83,7 +88,7 @@ func c18Run(c c18Case) Verdict {
 			script.Data = append(script.Data, plan)
 		}
 	}
-	r := harness.NewRig(harness.Config{LMTP: true}, script)
+	r := harness.NewRig(harness.Config{LMTP: true, FragmentReplies: c.Frag, Synchronous: c.Sync}, script)
 	nc, w := r.DialConn()
 	cl := smtp.NewClientLMTP(nc)
 	type txnObs struct {
@@ -345,6 +350,9 @@ type c18PeerCase struct {
 	// returns n > 0 and io.EOF, as crypto/tls does when the close alert
 	// arrives with the last record). The replies arrived in full all the same.
 	HangUp bool `json:"hang_up,omitempty"`
+	// Frag > 0: the server's replies reach the client in segments of at most
+	// Frag octets (a network may deliver a reply octet by octet)
+	Frag int `json:"frag,omitempty"`
 }
 
 func c18PeerServe(conn net.Conn, c c18PeerCase) {
@@ -446,6 +454,7 @@ func c18PeerRun(c c18PeerCase) Verdict {
 	hub := harness.NewHub()
 	clEnd, svEnd := harness.Pair(hub)
 	clEnd.SetEOFWithData(c.HangUp)
+	svEnd.SetFragment(c.Frag)
 	served := make(chan struct{})
 	go func() { defer close(served); c18PeerServe(svEnd, c) }()
 	cl := smtp.NewClientLMTP(clEnd)
@@ -641,6 +650,8 @@ func TestC18(t *testing.T) {
 			}
 			c.Txns = append(c.Txns, tx)
 		}
+		c.Frag = rapid.SampledFrom([]int{0, 0, 1, 3, 7}).Draw(rt, "frag")
+		c.Sync = rapid.IntRange(0, 5).Draw(rt, "sync") == 0
 		return c
 	})
 	if t.Failed() {
@@ -656,6 +667,7 @@ func TestC18(t *testing.T) {
 			}
 			c.Txns = append(c.Txns, tx)
 		}
+		c.Frag = rapid.SampledFrom([]int{0, 0, 1, 3, 7}).Draw(rt, "frag")
 		return c
 	})
 }
